@@ -8,6 +8,7 @@ From PSA Require Import gen.GoFacts model.Sanitize model.Resolv spec.SpecResolv.
 From PSA Require Import model.Config spec.SpecConfig.
 From PSA Require Import model.Client.
 From PSA Require Import spec.SpecClient model.ClientRx model.Tmpl.
+From PSA Require Import model.Fs spec.SpecFs.
 Open Scope N_scope.
 
 Definition arg (args : list (list N)) (i : nat) : list N := nth i args [].
@@ -452,6 +453,85 @@ Definition dispatch_c16 (tag : N) (a : LL) : LL :=
   | _ => [[99]]
   end.
 
+(* ---- C20: resolv.conf is replaced atomically ---- *)
+(* directory entries travel as name, content, [mode] *)
+Fixpoint take_files (n : nat) (a : LL) : dir * LL :=
+  match n with
+  | O => ([], a)
+  | S k => match a with
+           | nm :: dt :: md :: r => let (d, rest) := take_files k r in ((nm, {| f_data := dt; f_mode := n0 md 0 |}) :: d, rest)
+           | _ => ([], [])
+           end
+  end.
+(* writers travel as [number of environment entries] entry... ; a writer without a valid name server never calls update() *)
+Fixpoint take_bufs (n : nat) (a : LL) : list bytes * LL :=
+  match n with
+  | O => ([], a)
+  | S k => match a with
+           | cnt :: r => let ne := N.to_nat (n0 cnt 0) in
+                         let (bs, rest) := take_bufs k (skipn ne r) in
+                         (match syshook (firstn ne r) with Some b => b :: bs | None => bs end, rest)
+           | [] => ([], [])
+           end
+  end.
+Fixpoint bytes_leb (a b : bytes) : bool :=
+  match a, b with
+  | [], _ => true
+  | _ :: _, [] => false
+  | x :: a', y :: b' => if x <? y then true else if y <? x then false else bytes_leb a' b'
+  end.
+Fixpoint ins_entry (e : bytes * file) (l : dir) : dir :=
+  match l with
+  | [] => [e]
+  | h :: t => if bytes_leb (fst e) (fst h) then e :: l else h :: ins_entry e t
+  end.
+Definition sort_dir (d : dir) : dir := fold_right ins_entry [] d.
+Definition enc_dir (d : dir) : LL := flat_map (fun e => [fst e; f_data (snd e); [f_mode (snd e)]]) (sort_dir d).
+Definition enc_obytes (present : N) (b : bytes) : option bytes := if present =? 0 then None else Some b.
+
+(* one scripted writer: [nenv; ninit; kill_at (0 = never, j+1 = before its j-th step); fault mask over step numbers], random part of the
+   temp name, environment, initial directory.  Steps: the writer is scheduled seven times (the longest path has six calls). *)
+Definition c20_script (a : LL) : option (state * list (nat * choice)) :=
+  let nenv := N.to_nat (argn a 0 0) in
+  let ninit := N.to_nat (argn a 0 1) in
+  let killat := argn a 0 2 in
+  let mask := argn a 0 3 in
+  let r := arg a 1 in
+  let envp := firstn nenv (skipn 2 a) in
+  let (d0, _) := take_files ninit (skipn (2 + nenv) a) in
+  match syshook envp with
+  | None => None
+  | Some buf =>
+    Some (init d0 [buf],
+          map (fun j => (O, {| c_kill := (killat =? N.of_nat j + 1); c_fault := N.testbit mask (N.of_nat j); c_rand := r; c_len := O |}))
+              (seq 0 7))
+  end.
+
+Definition dispatch_c20 (tag : N) (a : LL) : LL :=
+  match tag with
+  (* the calls the writer issues, in order *)
+  | 2001 => match c20_script a with None => [[0]] | Some (st, s) => [1] :: events st s end
+  (* how it ends and what the directory is afterwards *)
+  | 2002 => match c20_script a with
+            | None => [[0]]
+            | Some (st, s) => let fin := run st s in [1] :: map outcome (st_ws fin) :: enc_dir (st_dir fin)
+            end
+  (* checks of spec/SpecFs.v on observations of the real directory.
+     2010: [nw; initial present; sample present; initial mode; sample mode] initial-content sample-content writers...  (content and mode of one open file)
+     2012: the same, content only *)
+  | 2010 => let (bufs, _) := take_bufs (N.to_nat (argn a 0 0)) (skipn 3 a) in
+            let ob p b m := if p =? 0 then None else Some {| f_data := b; f_mode := m |} in
+            [[b2n (sample_ok (ob (argn a 0 1) (arg a 1) (argn a 0 3)) bufs (ob (argn a 0 2) (arg a 2) (argn a 0 4)))]]
+  | 2012 => let (bufs, _) := take_bufs (N.to_nat (argn a 0 0)) (skipn 3 a) in
+            [[b2n (content_ok (enc_obytes (argn a 0 1) (arg a 1)) bufs (enc_obytes (argn a 0 2) (arg a 2)))]]
+  (* 2011: [nw; ninit; nobs; quiescent] writers... initial entries... observed entries... *)
+  | 2011 => let (bufs, r1) := take_bufs (N.to_nat (argn a 0 0)) (skipn 1 a) in
+            let (d0, r2) := take_files (N.to_nat (argn a 0 1)) r1 in
+            let (d, _) := take_files (N.to_nat (argn a 0 2)) r2 in
+            [[b2n (if argn a 0 3 =? 0 then dir_ok d0 bufs d else quiet_ok d0 bufs d)]]
+  | _ => [[99]]
+  end.
+
 Definition dispatch (tag : N) (a : list (list N)) : list (list N) :=
   if (1300 <=? tag) && (tag <? 1400) then dispatch_c13 tag a
   else if (1200 <=? tag) && (tag <? 1300) then dispatch_c12 tag a
@@ -463,4 +543,5 @@ Definition dispatch (tag : N) (a : list (list N)) : list (list N) :=
   else if (1500 <=? tag) && (tag <? 1600) then dispatch_c15 tag a
   else if (1400 <=? tag) && (tag <? 1500) then dispatch_c14 tag a
   else if (1600 <=? tag) && (tag <? 1700) then dispatch_c16 tag a
+  else if (2000 <=? tag) && (tag <? 2100) then dispatch_c20 tag a
   else [[99]].
